@@ -1,7 +1,7 @@
 """Shared machinery of the Thrift runtime checks (C01, C03, C04, C07, C11): TLC vector
 generation, lock-step model checking + transition-table emission, replay through `drive`, and
 trace validation of recorded executions."""
-import json, os, shutil, tempfile, time
+import json, os, re, shutil, tempfile, time
 import common as c
 import walks as walks_mod
 
@@ -24,7 +24,7 @@ def drive_wire(tier):
     out = os.path.join(c.OUT, f"wire_result-{tier}-{os.getpid()}.ndjson")
     rc, o, dt = c.run([c.hbin("drive"), "wire", path, out], timeout=1800)
     if rc != 0:
-        raise c.ToolError("drive wire failed:\n" + o[-3000:])
+        c.driver_failed("drive wire", rc, o)
     rows = c.read_ndjson(out)
     os.remove(out)
     summary = [r for r in rows if r["kind"] == "summary"][0]
@@ -38,11 +38,37 @@ def drive_wire(tier):
 def drive_vectors(tier, vset="universe"):
     vec, st = vectors(tier, vset)
     out = os.path.join(c.OUT, f"vec_result-{tier}-{os.getpid()}.ndjson")
-    rc, o, dt = c.run([c.hbin("drive"), "vectors", vec, out], timeout=1800)
-    if rc != 0:
-        raise c.ToolError("drive vectors failed:\n" + o[-3000:])
-    rows = c.read_ndjson(out)
-    os.remove(out)
+    # the code under test may abort the process: the vector in progress is recorded as a crash and the run resumes behind it
+    start, crashes = 0, []
+    while True:
+        rc, o, dt = c.run([c.hbin("drive"), "vectors", vec, out, str(start)], timeout=1800)
+        rows = c.read_ndjson(out) if os.path.exists(out) else []
+        if rc == 0 and any(r["kind"] == "summary" for r in rows):
+            break
+        open_ = None
+        for r in rows:
+            if r["kind"] == "start":
+                open_ = r
+            elif r["kind"] == "done":
+                open_ = None
+        if open_ is None or len(crashes) > 200:
+            c.driver_failed("drive vectors", rc, o)
+        why = "timeout" if rc == -9 or "timed out" in o[-200:] else o.strip()[-300:]
+        if open_["vi"] == "seq":
+            crashes.append({"kind": "mismatch", "vec": 0, "proto": "-", "buf": "-", "check": "seq-crash", "detail": why})
+            nd = [r for r in rows if r["kind"] == "done"]
+            rows.append({"kind": "summary", "vectors": len(nd), "evaluations": sum(r["evals"] for r in nd),
+                         "mismatches": len([r for r in rows if r["kind"] == "mismatch"]) + len(crashes), "seq_len": 0, "zero_copy_nodes": sum(r["zc"] for r in nd)})
+            break
+        st = re.findall(r"VSTAGE stage=(\S+) proto=(\S+)", o)
+        stage, proto = st[-1] if st else ("-", "-")
+        crashes.append({"kind": "mismatch", "vec": open_["vec"], "proto": proto, "buf": "-", "check": "crash" if stage == "-" else stage + "-crash", "detail": why})
+        with open(out, "a") as f:
+            f.write(json.dumps({"kind": "done", "vi": open_["vi"], "good": False, "evals": 1, "zc": 0}) + "\n")
+        start = open_["vi"] + 1
+    rows += crashes
+    if os.path.exists(out):
+        os.remove(out)
     summary = [r for r in rows if r["kind"] == "summary"][0]
     mism = [r for r in rows if r["kind"] == "mismatch"]
     byid = None
@@ -112,7 +138,7 @@ def drive_walks(tier, seed):
     out = os.path.join(c.OUT, f"walks_result-{tier}-{os.getpid()}.ndjson")
     rc, o, dt = c.run([c.hbin("drive"), "walks", wp, out], timeout=1800)
     if rc != 0:
-        raise c.ToolError("drive walks failed:\n" + o[-3000:])
+        c.driver_failed("drive walks", rc, o)
     rows = c.read_ndjson(out)
     os.remove(out)
     summary = [r for r in rows if r["kind"] == "summary"][0]
@@ -200,7 +226,7 @@ def record(seed, nvalues):
     out = os.path.join(c.OUT, f"trace-{seed}-{nvalues}-{os.getpid()}.ndjson")
     rc, o, dt = c.run([c.hbin("drive"), "record", str(seed), str(nvalues), out], timeout=1800)
     if rc != 0:
-        raise c.ToolError("drive record failed:\n" + o[-3000:])
+        c.driver_failed("drive record", rc, o)
     return out
 
 
@@ -232,13 +258,13 @@ def trace_selftest():
     return ok
 
 
-WRITE_CHECKS = {"enc-err", "write-leaves-fresh", "seq-enc-err", "seq-write-fresh", "walk-write-err", "walk-write-bytes",
+WRITE_CHECKS = {"crash", "seq-crash", "enc-crash", "enc-err", "write-leaves-fresh", "seq-enc-err", "seq-write-fresh", "walk-write-err", "walk-write-bytes",
                 "walk-write-state", "walk-write-panic"}
-READ_CHECKS = {"rt-dec-err", "rt-value", "dec-exact-err", "dec-exact", "dec-err", "dec-value", "dec-consumed", "dec-next", "read-leaves-fresh", "seq-dec-err", "seq-dec", "seq-read-fresh",
+READ_CHECKS = {"crash", "seq-crash", "dec-crash", "rt-dec-err", "rt-value", "dec-exact-err", "dec-exact", "dec-err", "dec-value", "dec-consumed", "dec-next", "read-leaves-fresh", "seq-dec-err", "seq-dec", "seq-read-fresh",
                "walk-read", "walk-read-consumed", "walk-read-state", "walk-read-panic"}
 BYTES_CHECKS = {"enc-bytes", "seq-enc-bytes"}
 LEN_CHECKS = {"len", "seq-len", "len-leaves-fresh", "walk-len", "walk-len-state", "walk-len-panic"}
-SKIP_CHECKS = {"skip", "skip-err", "skip-state"}
+SKIP_CHECKS = {"skip", "skip-err", "skip-state", "skip-crash", "crash"}
 GUARD_CHECKS = {"guard", "seq-guard"}
 
 
